@@ -247,6 +247,12 @@ func genSep(r *Rng, o wlOpt) SepCfg {
 	case k < 6 && !o.taint:
 		return SepCfg{Kind: "preset", Preset: pick(r, presetNames)}
 	case k < 8:
+		if !o.taint && r.Chance(0.2) {
+			// a separator recipe the library refuses every time (requirement too unlikely): the
+			// separator function yields "" with entropy 0
+			c := CharCfg{Length: 1 + r.Intn(2), Allow: pick(r, []uint32{3, 7, 1}), RequireSets: []string{pick(r, []string{"7", "!", "é"})}}
+			return SepCfg{Kind: "recipe", Recipe: &c}
+		}
 		c := genCharCfg(r, charOpt{small: true, budget: 12, maxLen: 2, taint: o.taint, maxReq: 1, noEmptied: true})
 		if o.sweepable {
 			c.RequireSets = nil
